@@ -39,6 +39,7 @@ PROBES = [
     "tracker-caught-up-equals-live-tree",
     "tracker-follows-key-to-blank",
     "delivery-without-reading-the-proof",
+    "unrelated-proof-of-another-key-size",
 ]
 FAULTS = ["msg-truncate", "msg-delay", "crash-reopen"]
 COMPONENTS = {
@@ -70,6 +71,21 @@ class World(SWorld):
         self.snaps.append(dict(self.model))
 
     # ------------------------------------------------------------------
+    def op_alien(self, cmd):
+        """Somebody else in the process creates a proof object for a tree of another key
+        size (and feeds it one update).  The trackers of this tree must not notice."""
+        ks2 = int(cmd["ks"])
+        key = bytes([cmd.get("b", 1) % 256]) * ks2
+        other = bytes([(cmd.get("b", 1) + 1) % 256]) * ks2
+        try:
+            p = SparseMerkleProof(key, b"alien", tuple(bytes(32) for _ in range(ks2 * 8)))
+            p.update(other, b"x", tuple(bytes([7]) * 32 for _ in range(ks2 * 8)))
+            p.root_hash
+        except Exception as e:
+            self.viol("tracker-value", f"an unrelated proof object for {ks2}-byte keys raised {e!r}")
+        self.st.probe("unrelated-proof-of-another-key-size")
+        return "ok"
+
     def op_tracker_new(self, cmd):
         t = cmd["t"]
         if t in self.trackers:
@@ -321,6 +337,10 @@ def generate(rng):
     for t in range(nt):
         cmds.append({"op": "catchup", "t": t})
     cfg["observe_every"] = rng.choice([1, 1, 2, 3, 5])
+    if rng.random() < 0.3 and len(cmds) > 3:
+        # unrelated proof objects for trees of other key sizes come and go in the process
+        for _ in range(rng.choice([1, 2, 3])):
+            cmds.insert(rng.randrange(2, len(cmds) + 1), {"op": "alien", "ks": rng.choice([1, 2, 3, 5, 8, 32]), "b": rng.randrange(256)})
     return {"prop": ID, "cfg": cfg, "cmds": cmds}
 
 
